@@ -257,6 +257,49 @@ example : ∀ engine : View → Nat, ∀ fs r, dump exSim = .ok fs → restore e
     engine r.view = engine exSim.view :=
   fun engine fs r h1 h2 => C19_calculations_agree exSys exSim exSim_dumpable fs r h1 h2 engine
 
+/-! ## dumping the restored simulation again; foreign files; empty directories -/
+
+/-- The restored simulation is itself dumpable, and *dump, restore, dump the restored
+    simulation, restore that* ends on a simulation observationally equal to the original.
+    (Restoring the same directory twice is the same function applied to the same argument:
+    `restore` does not change the directory — in the model by construction; on the real code the
+    correspondence check restores every second dump twice.) -/
+theorem C19_redump (sys : System) (s : Sim) (hd : Dumpable sys s) :
+    ∃ fs r fs2 r2, dump s = .ok fs ∧ restore sys fs = .ok r ∧ Dumpable sys r ∧
+      dump r = .ok fs2 ∧ restore sys fs2 = .ok r2 ∧ r2.view = s.view :=
+  ⟨_, s.reloaded, _, s.reloaded.reloaded, hd.dump_eq, hd.restore_eq _ hd.dump_eq, hd.reloaded,
+    hd.reloaded.dump_eq, hd.reloaded.restore_eq _ hd.reloaded.dump_eq,
+    hd.reloaded.view_reloaded.trans hd.view_reloaded⟩
+
+example : ∃ fs r fs2 r2, dump exSim = .ok fs ∧ restore exSys fs = .ok r ∧ Dumpable exSys r ∧
+    dump r = .ok fs2 ∧ restore exSys fs2 = .ok r2 ∧ r2.view = exSim.view :=
+  C19_redump exSys exSim exSim_dumpable
+
+/-- Files and sub-directories whose name does not end with `.npy` (notes, hidden files,
+    back-ups), put into the variable directories of *any* dump directory, change nothing of
+    what `restore_simulation` returns — success or error. -/
+theorem C19_restore_ignores_other_files (sys : System) (fs : FS)
+    (extras : String → List (List Char × Arr))
+    (hex : ∀ n, ∀ e ∈ extras n, stripNpy e.1 = none) :
+    restore sys (addExtras extras fs) = restore sys fs :=
+  restore_addExtras sys fs extras hex
+
+example : stripNpy "notes.txt".toList = none ∧ stripNpy ".hidden".toList = none ∧
+    stripNpy "2018-01.npy.bak".toList = none ∧ stripNpy "npy".toList = none ∧
+    stripNpy ".npy".toList = some [] := by decide
+
+/-- A variable directory without any file (a holder that knew nothing, or a directory made by
+    hand) restores to a holder whose store is unchanged: nothing becomes known. -/
+theorem C19_empty_directory (sys : System) (fs : FS) (s : Sim) (n : String) (var : VarDecl)
+    (pop : Pop) (hv : sys.var? n = some var) (hp : s.pop? var.entity = some pop)
+    (hd : alookup n fs.vars = some []) :
+    restoreHolder sys fs s n = .ok (s.setHolder ((s.holder? n).getD { var := var })) := by
+  unfold restoreHolder
+  rw [hv]
+  simp only [hp, hd, Option.getD_some, loadStore_nil]
+
+example : exSys.var? "n" = some exN ∧ exSim.reloaded.pop? exN.entity ≠ none := by decide
+
 /-! ## what happens to a value stored under a twelve-month period -/
 
 /-- A twelve-month key and the one-year key with the same start write **the same file**
